@@ -18,6 +18,7 @@ EXPLANATION = (
     "into_existing agree: same source expression per cell, destination equal modulo `other.` + child prefix, and tuple destinations are addressed by the "
     "position `into` uses (emission position). R6: into_existing only ever assigns `other.<path> = ..;` (`*other = ..` only for `return`), so fields the "
     "mapping does not mention are untouched.")
+EXPLANATION += ' R10 imports the emission-counter discipline (C01.R12): into (positional literal) and into_existing (`other.<n>`) agree on slots only if the counter counts pushed fragments.'
 NOT_DECIDED = ["equality of runtime results", "`?` propagation inside user expressions (user tokens are opaque)", "Clone/borrow behaviour of the by-ref flavour (type checking is rustc's)"]
 
 
